@@ -17,11 +17,20 @@
    character lower-cased), kotlin.rs:183 / swift.rs:268 (write_const is an Err naming the constant, for
    every constant), scala.rs:131 (begin_file is an Err exactly for the empty package).
 
+   The REST of the modelled single-file pipeline (last section of this file; proofs in Proofs/C07Topsort.v,
+   C07Front.v, C07TypeScript.v, C07Kotlin.v, C07Scala.v, C07Swift.v, C07Python.v, C07Go.v, C07GoAscii.v,
+   C07Pipeline.v): reconcile is a total function and keeps the shape of the parsed data; topsort is TOTAL on every
+   item list (the dependency walk never exhausts the model's fuel - since the /repo fix of C07-topsort-recursion
+   its nesting depth is bounded by the number of items - and the index / unwrap sites topsort.rs:154, :175, :222,
+   :232-:240 are unreachable); each back end's generate_types is Ok, Err, or a Panic at one of its recorded sites
+   - typescript.rs:137 / :276, go.rs:301, python.rs:368 only on parsed data the front end never delivers (a 64-bit
+   integer primitive, a non-unit variant in a unit enum), scala.rs:161 never (Scala writes no consts), go.rs:594
+   only with a non-empty acronym list AND a non-ASCII string among those Go converts; composed: parse, reconcile,
+   generate never panics in five languages, and in Go only in that one recorded class (C07-go.rs:594).
+
    What is NOT proved (exercised by checks/c07.py on the real binary and recorded in
    KNOWN_FINDINGS.jsonl only):
-     - the remaining partial operations of the six back ends: go.rs:301, go.rs:594, python.rs:368,
-       typescript.rs:137, typescript.rs:276 (scala.rs:161 is unreachable: Scala never writes consts);
-     - topsort's dependency recursion (Model/Topsort.v fuel exhaustion = real stack overflow);
+     - go.rs:594 inside its class (a finding: the witness is pinned below);
      - multi-file mode: import reconciliation, the writer;
      - the CLI: directory walk, reading files, the collector thread (cli/src/parse.rs), writing output;
      - what no model exhibits: real dead-locks, stack depth, OS errors. *)
@@ -29,7 +38,10 @@ From Coq Require Import String.
 From TS Require Import Model.Str Model.Outcome Model.Unicode Model.Syntax Model.Attrs Model.Rename Model.Types Model.Parse.
 From TS Require Import Model.MultiFile Model.Lang.Common Model.Lang.Kotlin Model.Lang.Swift Model.Lang.Scala Model.Lang.Go.
 From TS Require Import Spec.TargetOsRule Spec.C03Spec Spec.C07Spec.
+From TS Require Import Model.Reconcile Model.Collect Model.TopsortAlgo Model.Topsort Model.Lang.TypeScript Model.Lang.Python Spec.C07BackSpec.
 From TS Require Proofs.FrontItems Proofs.C07 Proofs.C07Back.
+From TS Require Proofs.GoAcronyms Proofs.C07Topsort Proofs.C07Front Proofs.C07TypeScript Proofs.C07Kotlin Proofs.C07Scala Proofs.C07Swift
+                Proofs.C07Python Proofs.C07Go Proofs.C07GoAscii Proofs.C07Pipeline.
 
 (* every type expression is translated or rejected, never a panic *)
 Theorem C07_type_parser_never_panics :
@@ -344,3 +356,195 @@ Theorem C07_nonvacuous_witness :
   end.
 Proof. exact Proofs.C07.C07_nonvacuous. Qed.
 Print Assumptions C07_nonvacuous_witness.
+
+(* ---------------------------------------------------------------- the rest of the single-file pipeline:
+   reconcile, topsort, the six back ends, and their composition.
+   Vocabulary (Spec/C07BackSpec.v): [panics_only P o] - o is Ok, Err, or a Panic whose site satisfies P;
+   [no_panic o] - o is Ok or Err; [pd_wf pd] - no type of pd contains a 64-bit integer primitive and every
+   RustEnum::Unit of pd has unit variants only; [go_input_ascii mappings pd] - every string Go's writers hand to
+   convert_acronyms_to_uppercase (names, printed field / variant types, type_mappings results, type overrides) is
+   ASCII; [single_file_run gen uc tstr T cfg f] - parser::parse on f, nothing / the parse errors / reconcile then
+   gen, as the driver command gen_src composes them. *)
+
+(* the shape the three `unreachable!()` / panic! arms rely on is what parser::parse delivers, for every file *)
+Theorem C07_front_end_delivers_shape :
+  forall (uc : unicode) (tstr : str -> option ty) (T : list str) (f : file) (pd : parsed),
+    parse_file uc tstr T f = Ok (Some pd) -> pd_wf pd = true.
+Proof. exact Proofs.C07Front.parse_file_wf. Qed.
+Print Assumptions C07_front_end_delivers_shape.
+
+(* reconcile (Model/Reconcile.v) is a total function - it has no Err and no partial operation, so "never panics"
+   holds by construction; what the later stages need from it is stated: it keeps the shape (per crate, for the
+   driver's single-crate call, for the single-file input of any number of files) and neither drops nor adds a crate *)
+Theorem C07_reconcile_never_panics :
+  (forall (rn : renames) (cn : str) (pd : parsed), pd_wf pd = true -> pd_wf (reconcile_crate rn cn pd) = true) /\
+  (forall pd : parsed, pd_wf pd = true -> pd_wf (reconcile_single pd) = true) /\
+  (forall arrivals : list parsed, List.Forall (fun pd => pd_wf pd = true) arrivals -> pd_wf (single_file_input arrivals) = true) /\
+  (forall cs : crates, List.map fst (reconcile_aliases cs) = List.map fst cs).
+Proof. exact Proofs.C07Pipeline.reconcile_keeps_wf. Qed.
+Print Assumptions C07_reconcile_never_panics.
+
+(* topsort.rs:198 topsort, on EVERY item list (duplicate names, cycles, self references, aliases whose generic
+   parameters are named like items): it returns a permutation of its input.  So none of topsort.rs:154, :175,
+   :222, :232, :235, :237, :240 is reachable and the dependency walk stays within the model's fuel. *)
+Theorem C07_topsort_never_panics :
+  forall things : list ritem, exists out, topsort things = Ok out /\ Coq.Sorting.Permutation.Permutation out things.
+Proof. exact Proofs.C07Topsort.topsort_total. Qed.
+Print Assumptions C07_topsort_never_panics.
+
+(* the form asked for: if it panicked at all it could only be the fuel (it does not: previous theorem) *)
+Theorem C07_topsort_panics_only_on_fuel :
+  forall things : list ritem, panics_only fuel_site (topsort things).
+Proof. exact Proofs.C07Topsort.topsort_panics_only_on_fuel. Qed.
+Print Assumptions C07_topsort_panics_only_on_fuel.
+
+(* get_dependencies completes for every item of every list within deps_fuel = 4 * |things| + 16 levels *)
+Theorem C07_dependency_collection_completes :
+  forall things : list ritem, deps_complete things = true.
+Proof. exact Proofs.C07Topsort.deps_complete_always. Qed.
+Print Assumptions C07_dependency_collection_completes.
+
+(* TypeScript, every Unicode table, configuration and parsed data: a panic can only be typescript.rs:137 or :276,
+   and only if the parsed data is not of the front end's shape *)
+Theorem C07_ts_generate_panics_only :
+  forall (uc : unicode) (cfg : ts_config) (pd : parsed),
+    panics_only (fun s => pd_wf pd = false /\ (s = "typescript.rs:137"%string \/ s = "typescript.rs:276"%string))
+                (ts_generate uc cfg pd).
+Proof. exact Proofs.C07TypeScript.ts_generate_panics_only. Qed.
+Print Assumptions C07_ts_generate_panics_only.
+
+Theorem C07_ts_generate_never_panics :
+  forall (uc : unicode) (cfg : ts_config) (pd : parsed), pd_wf pd = true -> no_panic (ts_generate uc cfg pd).
+Proof. exact Proofs.C07TypeScript.ts_generate_never_panics. Qed.
+Print Assumptions C07_ts_generate_never_panics.
+
+(* Kotlin, Scala, Swift: no panic at all, for every parsed data (scala.rs:161, the todo!() of write_const, is
+   unreachable: Scala's generate_types writes aliases, structs and enums only) *)
+Theorem C07_kt_generate_panics_only :
+  forall (uc : unicode) (cfg : kt_config) (pd : parsed), no_panic (kt_generate uc cfg pd).
+Proof. exact Proofs.C07Kotlin.kt_generate_never_panics. Qed.
+Print Assumptions C07_kt_generate_panics_only.
+
+Theorem C07_sc_generate_panics_only :
+  forall (uc : unicode) (cfg : sc_config) (pd : parsed), no_panic (sc_generate uc cfg pd).
+Proof. exact Proofs.C07Scala.sc_generate_never_panics. Qed.
+Print Assumptions C07_sc_generate_panics_only.
+
+Theorem C07_sw_generate_panics_only :
+  forall (uc : unicode) (cfg : sw_config) (pd : parsed), no_panic (sw_generate uc cfg pd).
+Proof. exact Proofs.C07Swift.sw_generate_never_panics. Qed.
+Print Assumptions C07_sw_generate_panics_only.
+
+(* Python: only python.rs:368, only outside the front end's shape *)
+Theorem C07_py_generate_panics_only :
+  forall (uc : unicode) (cfg : py_config) (pd : parsed),
+    panics_only (fun s => pd_wf pd = false /\ s = "python.rs:368"%string) (py_generate uc cfg pd).
+Proof. exact Proofs.C07Python.py_generate_panics_only. Qed.
+Print Assumptions C07_py_generate_panics_only.
+
+Theorem C07_py_generate_never_panics :
+  forall (uc : unicode) (cfg : py_config) (pd : parsed), pd_wf pd = true -> no_panic (py_generate uc cfg pd).
+Proof. exact Proofs.C07Python.py_generate_never_panics. Qed.
+Print Assumptions C07_py_generate_never_panics.
+
+(* Go.  convert_acronyms_to_uppercase (go.rs:579) on an ASCII name returns, and returns an ASCII string, for EVERY
+   acronym list - ASCII or not, empty patterns included (Unicode tables that agree with ASCII below 128) *)
+Theorem C07_go_convert_total_on_ascii :
+  forall uc : unicode, unicode_ok uc -> forall (acrs : list str) (name : str), str_ascii name = true ->
+    exists r, go_convert_acronyms_to_uppercase uc acrs name = Ok r /\ str_ascii r = true.
+Proof. exact Proofs.C07GoAscii.conv_ascii_b. Qed.
+Print Assumptions C07_go_convert_total_on_ascii.
+
+(* every configuration and parsed data: go.rs:594 needs a non-empty acronym list AND a non-ASCII string among those
+   converted; go.rs:301 needs parsed data outside the front end's shape; there is no other site *)
+Theorem C07_go_generate_panics_only :
+  forall (uc : unicode) (cfg : go_config) (pd : parsed), unicode_ok uc ->
+    panics_only (fun s => (s = "go.rs:594"%string /\ go_uppercase_acronyms cfg <> nil /\
+                           go_input_ascii (go_type_mappings cfg) pd = false) \/
+                          (s = "go.rs:301"%string /\ pd_wf pd = false))
+                (go_generate uc cfg pd).
+Proof. exact Proofs.C07GoAscii.go_generate_panics_only_sharp. Qed.
+Print Assumptions C07_go_generate_panics_only.
+
+(* the same without any assumption on the Unicode tables (then only the acronym half of the condition) *)
+Theorem C07_go_generate_panics_only_any_tables :
+  forall (uc : unicode) (cfg : go_config) (pd : parsed),
+    panics_only (fun s => (s = "go.rs:594"%string /\ go_uppercase_acronyms cfg <> nil) \/
+                          (s = "go.rs:301"%string /\ pd_wf pd = false))
+                (go_generate uc cfg pd).
+Proof. exact Proofs.C07Go.go_generate_panics_only. Qed.
+Print Assumptions C07_go_generate_panics_only_any_tables.
+
+Theorem C07_go_generate_never_panics_ascii :
+  forall (uc : unicode) (cfg : go_config) (pd : parsed), unicode_ok uc ->
+    go_input_ascii (go_type_mappings cfg) pd = true -> pd_wf pd = true -> no_panic (go_generate uc cfg pd).
+Proof. exact Proofs.C07GoAscii.go_generate_never_panics_ascii. Qed.
+Print Assumptions C07_go_generate_never_panics_ascii.
+
+(* COMPOSED (partial: the single-file pipeline of the model - not the CLI, not multi-file output; and Go keeps its
+   recorded class): for every Unicode table, serialized_as re-parser, --target-os list, configuration and file,
+   parser::parse then reconcile then generate_types is Ok or Err in TypeScript, Kotlin, Scala, Swift and Python; in
+   Go a panic can only be go.rs:594, and only with a non-empty acronym list and a non-ASCII string among those Go
+   converts in that run *)
+Theorem C07_single_file_pipeline_never_panics_partial :
+  forall (uc : unicode) (tstr : str -> option ty) (T : list str) (f : file),
+    (forall c, no_panic (single_file_run (ts_generate uc) uc tstr T c f)) /\
+    (forall c, no_panic (single_file_run (kt_generate uc) uc tstr T c f)) /\
+    (forall c, no_panic (single_file_run (sc_generate uc) uc tstr T c f)) /\
+    (forall c, no_panic (single_file_run (sw_generate uc) uc tstr T c f)) /\
+    (forall c, no_panic (single_file_run (py_generate uc) uc tstr T c f)) /\
+    (forall c, unicode_ok uc ->
+       panics_only (fun s => s = "go.rs:594"%string /\ go_uppercase_acronyms c <> nil /\
+                             go_run_ascii uc tstr T (go_type_mappings c) f = false)
+                   (single_file_run (go_generate uc) uc tstr T c f)).
+Proof. exact Proofs.C07Pipeline.single_file_pipeline. Qed.
+Print Assumptions C07_single_file_pipeline_never_panics_partial.
+
+(* Go's two ways out of the class: no acronyms, or ASCII input *)
+Theorem C07_go_pipeline_never_panics :
+  forall (uc : unicode) (tstr : str -> option ty) (T : list str) (c : go_config) (f : file), unicode_ok uc ->
+    go_uppercase_acronyms c = nil \/ go_run_ascii uc tstr T (go_type_mappings c) f = true ->
+    no_panic (single_file_run (go_generate uc) uc tstr T c f).
+Proof. exact Proofs.C07Pipeline.go_pipeline_never_panics. Qed.
+Print Assumptions C07_go_pipeline_never_panics.
+
+(* non-vacuity: a file with a struct (Vec<Option<String>>, HashMap<String, Other<u8>>), a tagged enum with the three
+   variant kinds inside a module, a unit enum and a generic alias parses to 4 items of the front end's shape and is
+   GENERATED by the composed run in all six languages - in Go with the acronym list ["id"; "aé"] (ASCII input) *)
+Theorem C07_single_file_pipeline_nonvacuous :
+  Proofs.C07Pipeline.is_generated (single_file_run (ts_generate uc_exec) uc_exec Proofs.C07.no_tstr nil Proofs.C07Pipeline.w_ts_cfg Proofs.C07Pipeline.w_file) = true /\
+  Proofs.C07Pipeline.is_generated (single_file_run (kt_generate uc_exec) uc_exec Proofs.C07.no_tstr nil Proofs.C07Back.w_kt_cfg Proofs.C07Pipeline.w_file) = true /\
+  Proofs.C07Pipeline.is_generated (single_file_run (sc_generate uc_exec) uc_exec Proofs.C07.no_tstr nil (Proofs.C07Back.w_sc_cfg (lit "p")) Proofs.C07Pipeline.w_file) = true /\
+  Proofs.C07Pipeline.is_generated (single_file_run (sw_generate uc_exec) uc_exec Proofs.C07.no_tstr nil Proofs.C07Back.w_sw_cfg Proofs.C07Pipeline.w_file) = true /\
+  Proofs.C07Pipeline.is_generated (single_file_run (py_generate uc_exec) uc_exec Proofs.C07.no_tstr nil Proofs.C07Pipeline.w_py_cfg Proofs.C07Pipeline.w_file) = true /\
+  Proofs.C07Pipeline.is_generated (single_file_run (go_generate uc_exec) uc_exec Proofs.C07.no_tstr nil
+                                     (Proofs.C07Pipeline.w_go_acr (cons (lit "id") (cons (lit "a" ++ cons 233%N nil) nil))) Proofs.C07Pipeline.w_file) = true /\
+  go_run_ascii uc_exec Proofs.C07.no_tstr nil nil Proofs.C07Pipeline.w_file = true /\
+  match parse_file uc_exec Proofs.C07.no_tstr nil Proofs.C07Pipeline.w_file with
+  | Ok (Some pd) => List.length (items_of (reconcile_single pd)) = 4%nat /\ pd_wf pd = true
+  | _ => False
+  end.
+Proof. exact Proofs.C07Pipeline.single_file_pipeline_nonvacuous. Qed.
+Print Assumptions C07_single_file_pipeline_nonvacuous.
+
+(* the class is inhabited (recorded finding C07-go.rs:594):  #[typeshare] struct AéX { a: u8 }  --lang go with
+   uppercase_acronyms = ["aé"] panics at go.rs:594 (its input is not ASCII); without the acronym it is generated *)
+Theorem C07_go_594_refuted :
+  single_file_run (go_generate uc_exec) uc_exec Proofs.C07.no_tstr nil
+                  (Proofs.C07Pipeline.w_go_acr (cons (lit "a" ++ cons 233%N nil) nil)) Proofs.C07Pipeline.w_594_file = Panic "go.rs:594" /\
+  go_run_ascii uc_exec Proofs.C07.no_tstr nil nil Proofs.C07Pipeline.w_594_file = false /\
+  Proofs.C07Pipeline.is_generated (single_file_run (go_generate uc_exec) uc_exec Proofs.C07.no_tstr nil
+                                     (Proofs.C07Pipeline.w_go_acr nil) Proofs.C07Pipeline.w_594_file) = true.
+Proof. exact Proofs.C07Pipeline.go_594_reached. Qed.
+Print Assumptions C07_go_594_refuted.
+
+(* the items of the former finding C07-topsort-recursion ( type A<B> = Vec<B>;  type B<A> = Vec<A>;  and a struct
+   using both) are sorted: both aliases before the struct *)
+Theorem C07_topsort_nonvacuous :
+  match topsort Proofs.C07Topsort.w_shadow_items with
+  | Ok out => List.map Proofs.C07Topsort.iname out = cons (lit "B") (cons (lit "A") (cons (lit "S") nil)) \/
+              List.map Proofs.C07Topsort.iname out = cons (lit "A") (cons (lit "B") (cons (lit "S") nil))
+  | _ => False
+  end.
+Proof. exact Proofs.C07Topsort.topsort_total_nonvacuous. Qed.
+Print Assumptions C07_topsort_nonvacuous.
